@@ -73,8 +73,10 @@ PROVED (nothing partial for the covered grammar)
   compiles to `P ++ Q`.
 3. examples / witnesses (section Example): the required non-vacuity file (a script + a `mapscripts` statement with
    one label entry, one inline script and a two-row table) parsed by `decide` on the parser model and by the
-   theorem; its compiled sections; independence instance; `generated_name_not_independent`,
-   `shared_text_inline_not_independent`; the located errors of rows and of an inline body through `parseTokens`.
+   theorem (`exFile_parsed_decide`, `exFile_parsed_theorem`); its compiled sections (`exFile_compiled`); instances
+   of both independence theorems (`exFile_indep`, `exMS_unrelated`); witnesses `generated_name_not_independent`,
+   `shared_text_inline_not_independent`, `const_in_row_not_independent`, `patches_order_mapscripts`; the located
+   errors of rows and of an inline body through `parseTokens`.
 
 PARTIAL / OPEN (honest list)
 * As in P2, `statement_independent_ms` is proved in the "remove" direction (and for two compiling files).
@@ -87,7 +89,8 @@ NOTICED IN THE MODEL (= parser.go)
 * the implicit data of the inline scripts of one `mapscripts` statement is recorded once, texts before movements:
   the patch list of a statement with two inline scripts that both hoist a text and a movement is ordered
   text₁ text₂ move₁ move₂, not text₁ move₁ text₂ move₂ as for two `script` statements (`patches_order_mapscripts`;
-  harmless: keys are distinct);
+  parser.go: one `p.addImplicitData(impData)` after `parseMapscriptsStatement`; harmless — the patch keys are
+  distinct, texts and movements are numbered by separate counters);
 * a `script` named like a generated inline-script name shares the label counter of hoisted texts with it
   (`generated_name_not_independent`): `script M_T { msgbox("Hi") }  mapscripts M { T { msgbox("Yo") } }` labels the
   second text `M_T_Text_1`, and both scripts are emitted under the label `M_T` without complaint;
